@@ -117,6 +117,75 @@ def keygen_diff(res, rng, n):
     return []
 
 
+def file_mode_keys(rng, n):
+    """the real cache/shared.execute_tasks_h5 run to completion in this thread with a recording launcher: which key does
+    a call get under which executor-level / per-call resources?  Calls whose effective resources differ must not share a
+    key; the same configuration twice must give the same key"""
+    import queue
+    import tempfile
+    import shutil
+    from concurrent.futures import Future
+    csh = importlib.import_module("executorlib.cache.shared")
+    fails = []
+
+    def fa(x):
+        return x
+
+    def keys_for(exec_rd, call_rds):
+        d = tempfile.mkdtemp(prefix="verif-key-")
+        started = []
+
+        def launcher(command, task_dependent_lst=[], resource_dict=None, config_directory=None, backend=None, cache_directory=None, **kw):
+            started.append((os.path.basename(command[-1]), dict(resource_dict or {})))
+            return object()
+        q = queue.Queue()
+        for rd in call_rds:
+            q.put({"fn": fa, "args": (1,), "kwargs": {}, "future": Future(), "resource_dict": dict(rd)})
+        q.put({"shutdown": True, "wait": True})
+        try:
+            csh.execute_tasks_h5(future_queue=q, cache_directory=d, execute_function=launcher, resource_dict=dict(exec_rd),
+                                 terminate_function=None)
+        finally:
+            shutil.rmtree(d, ignore_errors=True)
+        return started
+
+    def eff(exec_rd, rd):
+        m = dict(rd)
+        for k, v in exec_rd.items():
+            m.setdefault(k, v)
+        return tuple(sorted(m.items(), key=lambda kv: kv[0]))
+    seen = {}
+    for _ in range(n):
+        exec_rd = {"cores": rng.choice([1, 1, 2]), "cwd": rng.choice([None, "/a", "/b"])}
+        if rng.random() < 0.3:
+            exec_rd["threads_per_core"] = rng.choice([1, 2])
+        rd = rng.choice([{}, {}, {"cores": rng.choice([1, 2])}, {"cwd": rng.choice(["/a", "/b"])}])
+        try:
+            st = keys_for(exec_rd, [rd])
+            st2 = keys_for(exec_rd, [rd])
+        except Exception as ex:  # noqa
+            fails.append({"why": "execute_tasks_h5 with a recording launcher raised %s: %s" % (type(ex).__name__, ex), "tie": True})
+            break
+        if len(st) != 1 or len(st2) != 1:
+            fails.append({"why": "file mode: one new call, launcher invoked %d times (executor %r, call %r)" % (len(st), exec_rd, rd)})
+            break
+        key, given = st[0]
+        if st2[0][0] != key:
+            fails.append({"why": "file mode: the key of one and the same call under one configuration is not stable: %s / %s" % (key, st2[0][0])})
+            break
+        e = eff(exec_rd, rd)
+        if tuple(sorted(given.items(), key=lambda kv: kv[0])) != e:
+            fails.append({"why": "file mode: launcher received resources %r, effective resources are %r" % (given, dict(e))})
+            break
+        if key in seen and seen[key][0] != e:
+            fails.append({"why": "file mode: two calls that differ in their effective resources share the cache key %s: %r "
+                                 "(executor-level %r, per-call %r) and %r (executor-level %r, per-call %r)"
+                                 % (key, dict(seen[key][0]), seen[key][1], seen[key][2], dict(e), exec_rd, rd)})
+            break
+        seen.setdefault(key, (e, exec_rd, rd))
+    return fails
+
+
 def extra(res, hits):
     rng = res.rng
     fails = []
@@ -138,6 +207,8 @@ def extra(res, hits):
     kf, fa = key_pair_fails(rng, n)
     fails += kf
     fails += keygen_diff(res, rng, n // 3)
+    fails += file_mode_keys(rng, 40 if res.tier == "quick" else 300)
+    res.cov["file_mode_key_cases"] = 40 if res.tier == "quick" else 300
     ser = importlib.import_module("executorlib.standalone.serialize")
     res.cov["key_pair_cases"] = n
     # D9: what the interactive cache hashes does not contain the call's resources
@@ -152,7 +223,7 @@ def extra(res, hits):
 
 
 def run(res):
-    cachefile.cache_check(res, "C08", CONE, extra=extra, n_file=(0, 0), n_cache=(60, 600), gen=["Serialize"])
+    cachefile.cache_check(res, "C08", CONE, extra=extra, n_file=(0, 0), n_cache=(60, 600), gen=["Serialize", "CacheRes", "CacheKey"])
 
 
 def replay(path):
